@@ -206,6 +206,10 @@ def assert_estimator_equal(esta, estb, ext=None):
             )
             if isinstance(getattr(esta, att), BaseEstimator):
                 assert_estimator_equal(getattr(esta, att), getattr(estb, att), ext)
+            elif type(getattr(esta, att)).__eq__ is object.__eq__:
+                # The type (Tree, ...) does not define any comparison,
+                # a copy is never equal to the original, only types are checked.
+                ext.assertIsInstance(getattr(estb, att), type(getattr(esta, att)))
             else:
                 ext.assertEqual(getattr(esta, att), getattr(estb, att))
     for att in estb.__dict__:
